@@ -200,12 +200,13 @@ def tasks(tier):
                     combos = itertools.product(VALUES, repeat=len(given))
                 else:
                     base = [VALUES[0], VALUES[2], VALUES[5]]
-                    combos = set()
+                    combos, seen_c = [], set()
                     for j in range(len(given)):
                         for v in range(len(VALUES)):
-                            c = list(range(3))
-                            combos.add(tuple(VALUES[v] if jj == j else base[jj] for jj in range(3)) if True else None)
-                    combos = sorted(combos, key=repr)
+                            c = tuple(VALUES[v] if jj == j else base[jj] for jj in range(3))
+                            if repr(c) not in seen_c:
+                                seen_c.add(repr(c))
+                                combos.append(c)
                 for combo in combos:
                     if any(isinstance(v, (list, dict)) and gi in shape[0] and gi > 0 for gi, v in zip(given, combo)):
                         continue  # `f 1.5 [1, "a"]` reads as a subscript: ambiguous surface syntax, use the named form
